@@ -33,10 +33,12 @@ class FuncInfo:
 
 
 class ModuleInfo:
-    def __init__(self, name, path, src):
+    def __init__(self, name, path, src, tree=None, keyword_names=frozenset(), stats=None):
         self.name, self.path, self.src = name, path, src
-        self.tree = ast.parse(src, path)
+        self.tree = tree if tree is not None else ast.parse(src, path)
         self.digest = hashlib.sha256(src.encode()).hexdigest()[:16]
+        from . import normal
+        normal.normalise(self.tree, name, keyword_names, stats=stats)      # see normal.py: helper inlining, idioms, reference local names
         for parent in ast.walk(self.tree):
             for child in ast.iter_child_nodes(parent):
                 child._parent = parent
@@ -61,15 +63,20 @@ class Repo:
         if not os.path.isdir(pkg):
             raise AnalysisError(f"no ptera package under {self.root}")
         self.modules = {}
+        self.normal_stats = {}
+        parsed = []
         for fn in sorted(os.listdir(pkg)):
             if fn.endswith(".py"):
                 p = os.path.join(pkg, fn)
                 with open(p, encoding="utf8") as f:
                     src = f.read()
                 try:
-                    self.modules[fn[:-3]] = ModuleInfo(fn[:-3], p, src)
+                    parsed.append((fn[:-3], p, src, ast.parse(src, p)))
                 except SyntaxError as e:
                     raise AnalysisError(f"cannot parse {p}: {e}")
+        keyword_names = frozenset(k.arg for _, _, _, t in parsed for n in ast.walk(t) if isinstance(n, ast.Call) for k in n.keywords if k.arg)
+        for name, p, src, tree in parsed:
+            self.modules[name] = ModuleInfo(name, p, src, tree, keyword_names, self.normal_stats)
         self.functions = {}   # qual -> FuncInfo
         self.classes = {}     # "mod.Class" -> ClassDef
         for m in self.modules.values():
@@ -198,6 +205,11 @@ def norm(node):
     except Exception:
         s = ast.dump(node)
     return " ".join(s.split())
+
+
+def order(node):
+    """Position of a node in the normalised tree (pre-order index): compare these, never line numbers."""
+    return node._ord
 
 
 def short(node, n=90):
